@@ -27,7 +27,24 @@ def raise_rules():
             CallRule("D4.raise-parser", r"(?<![\w:])raise<parser_error>\(", lambda m, a: "NITRO_THROW(EXC_PARSER_ERROR)")]
 
 
+class LocalName:
+    """the name of a local carries no meaning: the local introduced by `decl_re` (group 1) is renamed to the name the rules and contracts use"""
+    name = "D3.local-name"
+
+    def __init__(self, decl_re, canonical):
+        self.decl_re, self.canonical = decl_re, canonical
+
+    def apply(self, text):
+        m = re.search(self.decl_re, text)
+        if not m or m.group(1) == self.canonical:
+            return text, 1 if m else 0
+        if re.search(r"\b%s\b" % self.canonical, text):
+            raise ExtractionError("cannot rename the local %s to %s: the name is taken" % (m.group(1), self.canonical))
+        return re.sub(r"\b%s\b" % re.escape(m.group(1)), self.canonical, text), 1
+
+
 def build(src):
+    ENVNAME = LocalName(r"(?:auto|std::string|struct ostr) (\w+) = nitro::env::get\(", "env_value")
     u = Unit("options", src)
     u.rules = raise_rules() + [Rule("D2.auto", r"\bauto\b", "__auto_type"), Rule("D7.npos", r"std::string::npos", "NITRO_NPOS"), Rule("D7.size_t", r"std::size_t", "size_t")]
     # ------------------------------------------------------------------ layer 1: user_input
@@ -81,7 +98,7 @@ def build(src):
     u.add(F("ui_name_without_prefix", UI, r"std::string name_without_prefix\(\) const", "struct ostr ui_name_without_prefix(%s)" % csu, P1, within=UCLS, dflt="nitro_empty_ostr()", rules=ui_rules, must_fire=["D6.name-substr"]))
     u.add(F("ui_name", UI, r"const std::string& name\(\) const", "const struct ostr *ui_name(%s)" % csu, P1, within=UCLS, dflt="0", ret_ref=True, rules=ui_rules))
     u.add(F("ui_value", UI, r"const std::string& value\(\) const", "const struct ostr *ui_value(%s)" % csu, P1, within=UCLS, dflt="0", ret_ref=True, rules=ui_rules))
-    u.add(F("ui_as_short_list", UI, r"std::multiset<std::string> as_short_list\(\) const", "void ui_as_short_list(struct omset *result, %s)" % csu, P1, within=UCLS,
+    u.add(F("ui_as_short_list", UI, r"std::multiset<std::string> as_short_list\(\) const", "void ui_as_short_list(struct omset *result, %s)" % csu, P1, within=UCLS, pre=[LocalName(r"for \((?:std::)?size_t (\w+) = 1;", "i")],
             rules=[Rule("D3.rvo-local", r"std::multiset<std::string>\s+result;", "omset_init(result);"),
                    Rule("D7.multiset-emplace", r"\bresult\.emplace\(1,\s*arg_\[i\]\);", "omset_emplace_char(result, ostr_at(&arg_, i));"),
                    Rule("D3.rvo-return", r"return\s+result;", "return;")] + ui_rules,
@@ -156,7 +173,7 @@ def build(src):
                    Rule("D7.string-empty", r"!env_value\.empty\(\)", "(env_value.len != 0)"),
                    Rule("D6.parse_env_value", r"\bparse_env_value\(env_value\)", "toggle_parse_env_value(&env_value)"),
                    Rule("D4.propagate-assign", r"(?m)^(\s*)given_ = (toggle_parse_env_value\([^;]*\));", r"\1{ nbool nitro_b = \2; NITRO_PROPAGATE; given_ = nitro_b; }")] + TB,
-            pre=[Rule("D2.auto", r"\bauto\b", "struct ostr")], must_fire=["D7.env-get", "D6.parse_env_value"]))
+            pre=[ENVNAME, Rule("D2.auto", r"\bauto\b", "struct ostr")], must_fire=["D7.env-get", "D6.parse_env_value"]))
     u.add(F("toggle_matches", TOG, r"bool toggle::matches\(const user_input& arg\) const", "nbool toggle_matches(%s, const struct user_input *arg)" % cst, P2, dflt="0",
             pre=arg_calls, rules=[Rule("D6.noprefix-eq", r"\barg\.name_without_prefix\(\)\s*==\s*name\(\)", "ostr_eq_v(ui_name_without_prefix(arg), *base_name(&self->b))"),
                                   Rule("D6.base-call", r"\bbase::matches\(arg\)", "base_matches(&self->b, arg)")] + TB,
@@ -178,7 +195,7 @@ def build(src):
           Rule("D3.members", r"(?<![\w.>])(is_optional_)\b", r"self->\1")]
     u.add(F("option_update_value", OPT, r"void option::update_value\(const user_input& arg\)", "void option_update_value(%s, const struct user_input *arg)" % so, P2, pre=arg_calls, rules=OB))
     u.add(F("option_prepare", OPT, r"void option::prepare\(\)", "void option_prepare(%s)" % so, ["C14"], rules=OB))
-    u.add(F("option_check", OPT, r"void option::check\(\)", "void option_check(%s)" % so, ["C03", "C04", "C14", "C02"], pre=[Rule("D2.auto", r"\bauto\b", "struct ostr")] + arg_calls, rules=OB, must_fire=["D7.env-get"]))
+    u.add(F("option_check", OPT, r"void option::check\(\)", "void option_check(%s)" % so, ["C03", "C04", "C14", "C02"], pre=[ENVNAME, Rule("D2.auto", r"\bauto\b", "struct ostr")] + arg_calls, rules=OB, must_fire=["D7.env-get"]))
     u.add(F("option_get", OPT, r"const std::string& option::get\(\) const", "const struct ostr *option_get(const struct ooption *self)", ["C02"], dflt="0", ret_ref=True, rules=[Rule("D7.optional-deref", r"\*value_\b", "self->value_")]))
     # multi_option
     sm = "struct omulti *self"
@@ -201,7 +218,7 @@ def build(src):
           Rule("D3.members", r"(?<![\w.>])(is_optional_)\b", r"self->\1")]
     u.add(F("multi_update_value", MOPT, r"void multi_option::update_value\(const user_input& arg\)", "void multi_update_value(%s, const struct user_input *arg)" % sm, P2, pre=arg_calls, rules=MB, must_fire=["D7.vector-push"]))
     u.add(F("multi_prepare", MOPT, r"void multi_option::prepare\(\)", "void multi_prepare(%s)" % sm, ["C14"], rules=MB))
-    u.add(F("multi_check", MOPT, r"void multi_option::check\(\)", "void multi_check(%s)" % sm, ["C03", "C04", "C14", "C02"], pre=[Rule("D2.auto", r"\bauto\b", "struct ostr")], rules=MB, must_fire=["D7.env-get", "D7.getline"]))
+    u.add(F("multi_check", MOPT, r"void multi_option::check\(\)", "void multi_check(%s)" % sm, ["C03", "C04", "C14", "C02"], pre=[ENVNAME, LocalName(r"std::string (\w+);\s*std::stringstream", "element"), Rule("D2.auto", r"\bauto\b", "struct ostr")], rules=MB, must_fire=["D7.env-get", "D7.getline"]))
     u.add(F("multi_count", MOPT, r"std::size_t multi_option::count\(\) const", "size_t multi_count(const struct omulti *self)", ["C02"], dflt="0", rules=MB))
     lits = re.findall(r'env_value\s*==\s*"([^"]*)"', src.find("src/options/toggle.cpp", r"bool toggle::parse_env_value\(const std::string& env_value\)")["body"])
     u.static_facts.append("toggle::parse_env_value compares against %d string literals; %d of them are outside the documented vocabulary: %r" % (len(lits), len([w for w in lits if w not in VOCAB]), [w for w in lits if w not in VOCAB]))
@@ -438,20 +455,6 @@ def build(src):
 """))
     u.stubs += ["parser_parse"]
     u.static_facts.append("parse(argc, argv): `const char*` argv words are std::string(argv[i]) (the text up to the terminating NUL); the vector is bounded by NITRO_NARGS words in the verification of this function")
-    class LocalName:
-        """the name of a local carries no meaning: the local introduced by `decl_re` (group 1) is renamed to the name the rules and contracts use"""
-        name = "D3.local-name"
-
-        def __init__(self, decl_re, canonical):
-            self.decl_re, self.canonical = decl_re, canonical
-
-        def apply(self, text):
-            m = re.search(self.decl_re, text)
-            if not m or m.group(1) == self.canonical:
-                return text, 1 if m else 0
-            if re.search(r"\b%s\b" % self.canonical, text):
-                raise ExtractionError("cannot rename the local %s to %s: the name is taken" % (m.group(1), self.canonical))
-            return re.sub(r"\b%s\b" % re.escape(m.group(1)), self.canonical, text), 1
     # ------------------------------------------------------------------ layer 4: declarations (C13)
     BASEH = "include/nitro/options/option/base.hpp"
     GRP = "src/options/group.cpp"
